@@ -276,6 +276,36 @@ def ddmin_candidates(lst):
         k = min(n, k * 2)
 
 
+def fails_in_sequence(pid, seq, target_check, known, hard_timeout=600.0, soft_timeout=None):
+    """Executes the records of seq one after the other in ONE fresh child process; True iff the LAST one fails target_check
+    (and that failure is not a listed known finding)."""
+    res = execute_records(pid, list(enumerate(seq)), batch=len(seq), nproc=1, hard_timeout=hard_timeout * max(1, len(seq)), soft_timeout=soft_timeout)
+    last = res[len(seq) - 1]
+    if last['verdict'] in ('inconclusive', 'harness_error'):
+        return False
+    viol, _ = split_failures(last, known)
+    return any(v['check'] == target_check for v in viol)
+
+
+def shrink_history(pid, history, rec, target_check, known, time_budget=150.0, soft_timeout=None, hard_timeout=600.0, log=None):
+    """The failure of rec depends on what the same process executed before (state kept by the code under test outside the model
+    objects): minimise that list of earlier records (ddmin) while rec still fails the same check as the last record of the sequence."""
+    t0 = time.monotonic()
+    improved = True
+    while improved and history and time.monotonic() - t0 < time_budget:
+        improved = False
+        for cand in ddmin_candidates(history):
+            if time.monotonic() - t0 > time_budget:
+                break
+            if fails_in_sequence(pid, cand + [rec], target_check, known, hard_timeout, soft_timeout):
+                history = cand
+                improved = True
+                if log:
+                    log(f'  shrink: process history reduced to {len(history)} earlier record(s)')
+                break
+    return history
+
+
 def shrink(pid, rec, target_check, known, time_budget=240.0, soft_timeout=None, hard_timeout=300.0, log=None):
     """Greedy parallel shrinking: keep a candidate iff the same check id still fails (and the
     failure is not a listed known finding)."""
